@@ -193,6 +193,11 @@ def constants_compared(terms: t.Iterable[tuple], is_input) -> t.Set[int]:
                 for a, b in ((s[2], s[3]), (s[3], s[2])):
                     if is_input(a) and is_const(b) and isinstance(b[1], int) and not isinstance(b[1], bool):
                         out.add(b[1])
+                # membership in a display of literals:  x in (A, 0xFF)
+                if s[1] in ("in", "not in") and is_input(s[2]) and s[3][0] in ("tuple", "list", "set"):
+                    for x in s[3][1]:
+                        if is_const(x) and isinstance(x[1], int) and not isinstance(x[1], bool):
+                            out.add(x[1])
     return out
 
 
